@@ -113,6 +113,16 @@ func runC20(sc C20Sc, c *kit.Case) *kit.Violation {
 		what string
 	}
 	var ratedWrites []rated
+	refunds := 0
+	// budgetKey names an excess over the budget: the open finding F11 (DESIGN 10.4) over-credits the limiter
+	// by at most one token per refused rated write, so an excess within that bound in a run that had such
+	// writes is that finding; anything else is a violation of its own
+	budgetKey := func(excess float64) string {
+		if refunds > 0 && excess <= float64(refunds) {
+			return "C20:refund-then-cancelled-wait-overcredits"
+		}
+		return "C20:send-budget-exceeded"
+	}
 	lastRated := -1
 	offered := 0
 	net1.FailWrite = func(o simnet.Out, m OutMsg) error {
@@ -136,6 +146,9 @@ func runC20(sc C20Sc, c *kit.Case) *kit.Violation {
 			}
 		}
 		if fail {
+			if isRated {
+				refunds++ // the library hands this send's token back to the limiter
+			}
 			return errors.New("simulated socket write failure")
 		}
 		if isRated {
@@ -293,12 +306,12 @@ func runC20(sc C20Sc, c *kit.Case) *kit.Violation {
 				if base != t0 {
 					since = "a quiescent instant at which the limiter had been left alone long enough to be full"
 				}
-				return kit.Violatef("C20:send-budget-exceeded", "rated datagram #%d since %s was written %.6f s after it (rate %g/s, burst %d); the budget allows at most %.3f by then: %s", k, since, w.at.Sub(base).Seconds(), r, sc.Burst, allowed, w.what)
+				return kit.Violatef(budgetKey(float64(k)-(allowed+1+r*0.02)), "rated datagram #%d since %s was written %.6f s after it (rate %g/s, burst %d); the budget allows at most %.3f by then: %s", k, since, w.at.Sub(base).Seconds(), r, sc.Burst, allowed, w.what)
 			}
 		}
 	}
 	if sc.RateIdx == 0 && len(ratedWrites) > sc.Burst {
-		return kit.Violatef("C20:send-budget-exceeded", "%d rated datagrams were written with a burst of %d and no refill: %s", len(ratedWrites), sc.Burst, ratedWrites[sc.Burst].what)
+		return kit.Violatef(budgetKey(float64(len(ratedWrites)-sc.Burst)), "%d rated datagrams were written with a burst of %d and no refill (%d rated sends were refused by the socket): %s", len(ratedWrites), sc.Burst, refunds, ratedWrites[sc.Burst].what)
 	}
 	// a query that may not wait for budget fails without sending when there is none
 	for i, qo := range results {
